@@ -66,6 +66,12 @@ ASSUMPTIONS = ["rounding / fastmath re-association are covered by the stated tol
                "the scatter statistic M2 is additionally held to the forward bound of the TWO-PASS evaluation of the definition (2 E s + E^2 + reduction, "
                "E = per-segment rounding budget of the cross product, s = sqrt(M2); see m2_tight_tol), i.e. relative to the scatter and the rounding of "
                "each z_k, not to |mean z|^2; measured on the unchanged library the used fraction of that budget stays below 1% on all backends",
+               "for detrend orders >= 0 the four means (and, through m2_tight_tol, the scatter) are additionally held to the forward bound of the "
+               "PER-SEGMENT evaluation (seg_tight_tol): recurrence budget times the DETRENDED windowed magnitude plus the rounding of the trend "
+               "coefficients, u*(L+3)*max|x| over the segment, as far as a constant / polynomial passes the window at the analysis frequency -- i.e. the "
+               "budget never depends on anything outside the segment (record length, level of the rest of the record, running sums); measured on the "
+               "unchanged library the used fraction stays below 10% on all backends; for orders 1, 2 at the public entry this comparison uses the basis the "
+               "library builds (core._build_Q), whose least-squares property is checked separately with the projector allowance",
                "theorems are over ℝ for the Lean translation of the kernels' source (Numba, CUDA and, through the whole-array NumPy contracts "
                "listed in the trusted base, the NumPy fallbacks); the translation is executed in Float against the real functions each run"]
 RULE = ("cases = (backend function, record(s), L, start vector incl. repeated/unsorted/extreme starts, window with random signs, "
@@ -74,7 +80,14 @@ RULE = ("cases = (backend function, record(s), L, start vector incl. repeated/un
         "1e-10..1e-6 of it | exactly periodic | phase-locked sinusoids | constant | DC + relative noise | repeated starts) x K in {2,3,17,256} x "
         "unsorted / sorted / repeated starts x 6 Numba + 6 NumPy + 6 CUDA-simulator functions, and SpectrumAnalyzer.compute_single_bin (numba, numpy; "
         "orders -1..2; auto, cross): M2 of EVERY case is also held to the two-pass budget relative to the scatter (m2_tight_tol); there "
-        "non-trivial = K>=2 and that budget < u*|mean|^2/4 (a variance formula that cancels against |mean|^2 would be seen)")
+        "non-trivial = K>=2 and that budget < u*|mean|^2/4 (a variance formula that cancels against |mean|^2 would be seen); "
+        "PLUS long records (N = 1e5 .. 1.1e6, a pure function of a small spec) riding on a level | ramp | level+ramp | step of 1e6 .. 1e10 times the fluctuation "
+        "(each channel its own level, sign, shape; every third record with one huge finite sample per channel that no segment covers) x L in {16, 64, 257} x "
+        "K <= 64 segments at the start, the middle and the END of the record (unsorted, repeats) x window with zero / non-zero end points / rectangular / random "
+        "signs x fractional low bin | low integer bin | anywhere | 0 | pi x 6 Numba + 6 NumPy (+ 6 CUDA-simulator on the 1e5 records) functions, and "
+        "compute_single_bin on such records (numpy, numba; orders -1..2; auto, cross; by L / by resolution; method / module wrapper): for orders >= 0 EVERY case "
+        "of EVERY stream is also held to the budget of the per-segment evaluation (seg_tight_tol); there non-trivial = that budget < 1e-3 of the raw-magnitude "
+        "budget (an error that scales with the level or the running sum of the record instead of the detrended segment would be seen)")
 
 NUMBA = ["_stats_win_only_auto", "_stats_win_only_csd", "_stats_detrend0_auto", "_stats_detrend0_csd", "_stats_poly_auto", "_stats_poly_csd"]
 U = 2.0 ** -53
@@ -238,6 +251,102 @@ def m2_tight_tol(K: int, tre: float, tim: float, s: float, zmax: float) -> float
     return 2.0 * E * s + E * E + d2 + th * ((s + E) ** 2 + d2)
 
 
+def seg_tight_tol(x1, x2, starts, L, w, omega, order, Q, cross):
+    """SOUND forward budget of the four means for detrend orders >= 0 that scales with the segment's OWN magnitudes: the DETRENDED windowed
+    magnitude D_k = sum_n |w_n d_k[n]| (d = segment minus its exact trend, extended precision) plus the rounding of the trend itself,
+    which is of the size u * L * max|x| over the SEGMENT -- never of anything outside the segment (record length, running sums, other segments).
+    Returns ((tXX, tYY, tRe, tIm), EZ, (max_k D1, D2, E1, E2 for the message)); EZ = per-segment bound of each component of X_k conj(Y_k) (for m2_tight_tol).
+
+    Derivation for the kernels as they are (per-segment evaluation; Numba streaming, NumPy gathered, CUDA one thread per segment), A = max_n |x[n]| over
+    the segment, Q the (L, p+1) trend basis (order 0: the mean, i.e. the single column 1/sqrt(L), p = 0):
+      (a) trend coefficients a_j = sum_n Q[n,j] x[n]: ANY summation order gives |da_j| <= g_L A ||Q_j||_1, g_L <= L u (1 + ..) (order 0: the sum, then one
+          division by L, or a reciprocal multiply under fastmath: (L+1) u A for the mean).  The error is the SAME for every sample of the segment, so it reaches
+          the transform only through the transform of the windowed basis column:  sum_j |da_j| |WQ_j(w)|,  WQ_j(w) = sum_n w_n Q[n,j] exp(-i w n)
+          (order 0: |dm| |W(w)|, W the window's own transform)  ->  A S,  S = (L+3) u sum_j ||Q_j||_1 |WQ_j(w)|   (two units of margin);
+      (b) evaluating the trend at n, sum_j Q[n,j] a^_j: (p+2) u sum_j |Q[n,j]| |a_j|, |a_j| <= A ||Q_j||_1 (order 0: nothing, the mean is used as is), one more
+          rounding each if the mean / the coefficients are re-rounded per sample  ->  A T,  T = (p+4) u sum_n |w_n| q_n,  q_n = sum_j |Q[n,j]| ||Q_j||_1 (order 0: 1);
+      (c) the subtraction x[n] - trend^[n] and the product with w[n]: one rounding of the (small) result each; then the transform of the sequence
+          v^_n = w_n d_n + r_n actually handed to the recurrence is off by at most g sum|v^_n| -- g the module's recurrence budget (`tolerances`: Goertzel growth
+          (L+4) min(L+1, 1/|sin w|), which also covers the direct matrix product of the NumPy path, the phase table and an independently built window) --
+          with sum|v^_n| <= D + A F,  F = (L+p+5) u sum_n |w_n| q_n.
+      Hence, per segment k (its own A_k, D_k), |X^_k - X_k| <= E_k = A_k (S + T)(1 + 2^-10) + (g + 4u)(D_k + A_k F)   (2^-10: the extended-precision reference's own
+      trend error, 2^-64 L A), and
+      |mean_k |X^_k|^2 - mean_k |X_k|^2| <= mean_k (2 |X_k| E_k + E_k^2),
+      |mean X^ conj Y^ - mean X conj Y| <= mean_k (|X_k| E2_k + |Y_k| E1_k + E1_k E2_k) (each component; EZ = the max over k of that term),
+      the squares / products / K-term means add 8 (K+8) u max_k (D1+E1)(D2+E2)  (any order; fused or reassociated evaluation included).
+    This is what the property calls the rounding budget of the recurrence for orders
+    >= 0: it does not grow with the level of the record except through u*L*level of the SEGMENT, and only as far as a constant (a polynomial) passes the
+    window at w (for order -1 the level is part of the segment's windowed magnitude and `tolerances` is already this bound)."""
+    K = len(starts)
+    sn = max(abs(np.sin(omega)), 1e-300)
+    g = 64.0 * U * (L + 4) * min(float(L) + 1.0, 1.0 / sn)
+    us, inv = np.unique(np.asarray(starts, dtype=np.int64), return_inverse=True)
+    inv = np.asarray(inv).reshape(-1)
+    idx = us[:, None] + np.arange(L, dtype=np.int64)[None, :]
+    n = np.arange(L, dtype=LD)
+    co, si = np.cos(LD(omega) * n), np.sin(LD(omega) * n)
+    wl = np.asarray(w, dtype=np.float64).astype(LD)
+    aw = np.abs(wl)
+    Ql = np.asarray(Q).astype(LD) if order >= 1 else np.full((L, 1), 1 / np.sqrt(LD(L)), dtype=LD)
+    p = Ql.shape[1] - 1
+    aq = np.abs(Ql)
+    q1 = aq.sum(axis=0)                                                # ||Q_j||_1
+    wq = wl[:, None] * Ql
+    WQ = np.sqrt((co @ wq) ** 2 + (si @ wq) ** 2)                      # |WQ_j(omega)|
+    S = (L + 3) * U * float((q1 * WQ).sum())
+    leak = float((aw * (aq @ q1)).sum())
+    T = (p + 4) * U * leak
+    F = (L + p + 5) * U * leak
+
+    def chan(z):
+        sg = np.asarray(z, dtype=np.float64)[idx].astype(LD)
+        A = np.abs(sg).max(axis=1)
+        d = (sg - sg.mean(axis=1, keepdims=True) if order == 0 else sg - (sg @ Ql) @ Ql.T) * wl
+        D = np.abs(d).sum(axis=1)
+        X = np.sqrt((d @ co) ** 2 + (d @ si) ** 2)
+        E = A * ((S + T) * (1.0 + 2.0 ** -10)) + (g + 4.0 * U) * (D + A * F)
+        return D[inv], E[inv], X[inv]                                   # per segment k: sum|w d_k|, budget of X_k, |X_k|
+    D1, E1, X1 = chan(x1)
+    D2, E2, X2 = chan(x2) if cross else (D1, E1, X1)
+    rr = 8.0 * (K + 8) * U
+    tXX = float((2 * X1 * E1 + E1 * E1).mean() + rr * ((D1 + E1) ** 2).max())
+    tYY = float((2 * X2 * E2 + E2 * E2).mean() + rr * ((D2 + E2) ** 2).max())
+    ez = X1 * E2 + X2 * E1 + E1 * E2
+    tZ = float(ez.mean() + rr * ((D1 + E1) * (D2 + E2)).max())
+    EZ = float(ez.max())
+    D1, D2, E1, E2 = float(D1.max()), float(D2.max()), float(E1.max()), float(E2.max())
+    return (tXX, tYY, tZ, tZ), EZ, (D1, D2, E1, E2)
+
+
+def tight_means(P: C.Part, label: str, key, K: int, obs, ext, sx: float, zmax: float, tt, raw_tol, sig: Dict[str, Any], rp: Dict[str, Any]) -> bool:
+    """orders >= 0: the five statistics against the extended-precision per-segment evaluation within seg_tight_tol (means) and m2_tight_tol fed with
+    the per-segment product bound of seg_tight_tol (scatter).  Counts the evaluation as `segtight:detectable` when that budget is below 1e-3 of the
+    module's raw-magnitude budget (there an error that scales with the level / the record instead of the detrended segment is seen)."""
+    t4, EZ, (D1, D2, E1, E2) = tt
+    bad = [i for i in range(4) if not (abs(obs[i] - ext[i]) <= t4[i])]
+    if t4[0] < 1e-3 * raw_tol[0] or t4[1] < 1e-3 * raw_tol[1]:
+        P.hit("segtight:detectable")
+        P.nontrivial.add(("segtight",) + tuple(key))
+    if bad:
+        k = bad[0]
+        P.violations.append(C.Violation(
+            what=f"{label}: {STAT[k]} = {obs[k]!r} but evaluating the windowed DFT of every (detrended) segment directly, in extended precision, gives "
+                 f"{ext[k]!r}: off by {abs(obs[k] - ext[k]):.3g}, rounding budget of the per-segment evaluation {t4[k]:.3g} (detrended windowed magnitude "
+                 f"sum|w d| = {D1:.3g} / {D2:.3g}, per-segment DFT budget incl. the u*L*max|x| rounding of the trend as far as it passes the window = {E1:.3g} / {E2:.3g}; the budget from the RAW "
+                 f"segment magnitude would be {raw_tol[k]:.3g}): the error scales with something outside the segment",
+            signature=dict(sig, component=k, sub="segment-budget"), replay=dict(rp, observed=list(obs), expected=list(ext), tol_tight=list(t4))))
+        return False
+    tT = m2_tight_tol(K, EZ, EZ, sx, zmax)
+    if not abs(obs[4] - ext[4]) <= tT:
+        P.violations.append(C.Violation(
+            what=f"{label}: M2 = {obs[4]!r} but the mean squared scatter of the per-segment products evaluated directly (extended precision) is {ext[4]!r}: off by "
+                 f"{abs(obs[4] - ext[4]):.3g}, budget {tT:.3g} (= 2 E s + E^2 + reduction with E = {EZ:.3g} the per-segment product budget of the DETRENDED "
+                 f"segments, s = sqrt(M2) = {sx:.3g})",
+            signature=dict(sig, component=4, sub="segment-budget"), replay=dict(rp, observed=list(obs), expected=list(ext), tol_tight_M2=tT)))
+        return False
+    return True
+
+
 class InputModified(Exception):
     pass
 
@@ -323,8 +432,13 @@ def case_summary(name, c, Q):
 
 
 def case_dump(name, c, Q, backend):
-    return {"fn": name, "backend": backend, "L": c["L"], "starts": c["starts"].tolist(), "omega": c["omega"], "w": c["w"].tolist(),
-            "x1": c["x1"].tolist(), "x2": c["x2"].tolist(), "Q": None if Q is None else Q.tolist()}
+    d = {"fn": name, "backend": backend, "L": c["L"], "starts": c["starts"].tolist(), "omega": c["omega"], "w": c["w"].tolist(),
+         "Q": None if Q is None else Q.tolist()}
+    if "long" in c:                  # a long record is a pure function of its small spec (long_record): the replay regenerates it
+        d["long"] = c["long"]
+    else:
+        d["x1"], d["x2"] = c["x1"].tolist(), c["x2"].tolist()
+    return d
 
 
 def correspondence(ctx) -> C.Part:
@@ -637,17 +751,19 @@ def tight_m2(P: C.Part, label: str, key, K: int, m2: float, ext, sx: float, zmax
 
 
 def reference(name: str, c, Q):
-    """everything check_case needs that does not depend on the backend: (direct 5-tuple, tolerances, extended 5-tuple, sqrt(M2), max|Z_k|)"""
+    """everything check_case needs that does not depend on the backend: (direct 5-tuple, tolerances, extended 5-tuple, sqrt(M2), max|Z_k|,
+    seg_tight_tol for orders >= 0 or None)"""
     order = order_of(name, Q)
     cross = "csd" in name
     ref, S1, S2 = direct(c["x1"], c["x2"], c["starts"], c["L"], c["w"], c["omega"], order, Q, cross)
     tol = tolerances(c["L"], c["omega"], S1, S2, c["x1"], c["x2"] if cross else c["x1"], c["starts"], c["w"], order, Q)
     ext, sx, zmax = direct_ext(c["x1"], c["x2"], c["starts"], c["L"], c["w"], c["omega"], order, Q, cross)
-    return ref, tol, ext, sx, zmax
+    tt = seg_tight_tol(c["x1"], c["x2"], c["starts"], c["L"], c["w"], c["omega"], order, Q, cross) if order >= 0 else None
+    return ref, tol, ext, sx, zmax, tt
 
 
 def check_case(P: C.Part, name: str, backend: str, c, Q, imp, R=None) -> None:
-    ref, tol, ext, sx, zmax = R if R is not None else reference(name, c, Q)
+    ref, tol, ext, sx, zmax, tt = R if R is not None else reference(name, c, Q)
     P.cases += 1
     if len(c["starts"]) >= 2 or c["L"] >= 3:
         P.nontrivial.add((name, backend, c["L"], len(c["starts"]), c["omega_class"]))
@@ -663,8 +779,14 @@ def check_case(P: C.Part, name: str, backend: str, c, Q, imp, R=None) -> None:
     # the scatter statistic, tightly (every case of every stream; the near-identical-segment stream makes it sharp)
     K = len(c["starts"])
     kind = c.get("kind", "generic")
+    nv = len(P.violations)
     tight_m2(P, f"{backend} {name} ({kind} record, L={c['L']} K={K} omega={c['omega']})", (name, backend, kind), K, float(imp[4]), ext, sx, zmax, tol,
              {"backend": backend, "fn": name}, {"case": case_dump(name, c, Q, backend), "observed": imp, "expected": ext, "tol": tol, "kind": kind})
+    # orders >= 0: the rounding budget is that of the per-segment evaluation (detrended magnitude + u L max|x| of the segment), every stream
+    if tt is not None and len(P.violations) == nv:
+        tight_means(P, f"{backend} {name} ({kind} record, N={len(c['x1'])} L={c['L']} K={K} omega={c['omega']})", (name, backend, kind, order_of(name, Q)), K, imp, ext, sx, zmax,
+                    tt, tol, {"backend": backend, "fn": name},
+                    {"case": case_dump(name, c, Q, backend), "tol": tol, "kind": kind})
 
 
 def locked_stream(ctx, P: C.Part, rng: np.random.Generator, cuda, intensive: bool) -> None:
@@ -717,6 +839,133 @@ def locked_stream(ctx, P: C.Part, rng: np.random.Generator, cuda, intensive: boo
         P.notes.append(f"near-identical-segment stream: {n_cuda} cases also through the CUDA host functions (simulator)")
 
 
+# ---------------------------------------------------------------- long records riding on a large level / ramp (seeded defect C01h and its family)
+LONG_N = [1_000_000, 100_000, 1_100_000, 300_000]
+LONG_L = [64, 16, 257]
+LONG_SHAPES = ["level", "ramp", "level+ramp", "level", "step"]
+LONG_BINS = [0.5, 1.37, 1.0, 2.5, 0.25, 3.0]
+
+
+def long_record(spec: Dict[str, Any]):
+    """the two channels of a long record: a PURE FUNCTION of the small spec (so a replay stores the spec, not 10^6 samples).
+    channel = fluct * (white noise + 0.5 sin(2 pi 0.0123 n + phase)) + level * shape(n / N); shape: level = 1 | ramp = n/N (the running sum reaches
+    N level / 2) | level+ramp = 1 + n/(2N) | step = 0 in the first 40 % then 1;  |level| = 1e6 .. 1e10 times fluct, each channel its own level, sign and
+    shape.  spikes = [[channel, index, value], ..]: single huge finite samples (the generator puts them where NO segment of the case covers them)."""
+    r = np.random.default_rng(int(spec["seed"]))
+    N = int(spec["N"])
+    t = np.arange(N, dtype=np.float64)
+    fl = float(spec["fluct"])
+    out = []
+    for ch, ph in ((0, 0.0), (1, 0.9)):
+        v = fl * (r.standard_normal(N) + 0.5 * np.sin(2 * np.pi * 0.0123 * t + ph))
+        lev, shape = float(spec["levels"][ch]), spec["shapes"][ch]
+        if shape == "level":
+            v += lev
+        elif shape == "ramp":
+            v += lev * (t / N)
+        elif shape == "level+ramp":
+            v += lev * (1.0 + 0.5 * t / N)
+        else:
+            v[int(0.4 * N):] += lev
+        out.append(v)
+    for ch, i, val in spec.get("spikes", []):
+        out[int(ch)][int(i)] = float(val)
+    return np.ascontiguousarray(out[0]), np.ascontiguousarray(out[1])
+
+
+def long_spec(rng: np.random.Generator, i: int, N: int, L: int) -> Dict[str, Any]:
+    """spec of record i plus the start vector (K <= 64): segments at the START ([0, 6L]), around the MIDDLE and at the END of the record (N-L itself
+    always among them), unsorted, with repeats; every third record carries a huge finite sample per channel between the first and the middle
+    group (index in [8L, N/4)), which no segment covers."""
+    fl = float(rng.choice([1.0, 1.0, 1e-3, 1e3]))
+    lv = [fl * float(10 ** rng.uniform(6, 10)) * float(rng.choice([-1.0, 1.0])) for _ in range(2)]
+    shapes = [LONG_SHAPES[i % len(LONG_SHAPES)], LONG_SHAPES[(i + 1 + i // 5) % len(LONG_SHAPES)]]
+    K = int([8, 24, 3, 64, 5][i % 5])
+    ne = max(1, K // 2)                                                 # half of the segments at the end
+    nm = max(1, (K - ne) // 2)
+    n0 = K - ne - nm
+    st = np.concatenate([rng.integers(0, 6 * L + 1, size=n0), N // 2 + rng.integers(-4 * L, 4 * L + 1, size=nm),
+                         N - L - rng.integers(0, 5 * L + 1, size=ne)]).astype(np.int64)
+    st[-1] = N - L
+    if K >= 5:
+        st[int(rng.integers(0, K - 1))] = st[-1]                        # a repeated start
+    st = st[rng.permutation(K)] if i % 4 else np.sort(st)
+    spikes = []
+    if i % 3 == 2:
+        for ch in (0, 1):
+            val = [1e30, -1e100, 1e300, abs(lv[ch]) * 1e12][int(rng.integers(0, 4))]
+            spikes.append([ch, int(rng.integers(8 * L, N // 4)), float(val)])
+    return {"seed": int(rng.integers(0, 2 ** 31 - 1)), "N": int(N), "fluct": fl, "levels": lv, "shapes": shapes, "spikes": spikes,
+            "starts": st.tolist()}
+
+
+def long_window_omega(rng: np.random.Generator, L: int, j: int):
+    """window (zero end points | non-zero end points | rectangular | random signs) and digital frequency (fractional low bin mostly, a low integer
+    bin, anywhere, 0 / pi) of the j-th function on a long record"""
+    wk = int(rng.integers(0, 5))
+    w = [np.hanning(L), np.hanning(L + 2)[1:-1] + 0.05, np.ones(L), rng.standard_normal(L), np.hanning(L)][wk]
+    oc = (j + int(rng.integers(0, 2)) * 3) % 8
+    if oc < 6:
+        omega, ocl = 2 * np.pi * LONG_BINS[oc] / L, 30 + (0 if LONG_BINS[oc] % 1 else 1)
+    elif oc == 6:
+        omega, ocl = float(rng.uniform(0.05, 3.0)), 32
+    else:
+        omega, ocl = [0.0, float(np.pi)][int(rng.integers(0, 2))], 33
+    return np.ascontiguousarray(w, dtype=np.float64), float(omega), ocl
+
+
+def long_stream(ctx, P: C.Part, rng: np.random.Generator, cuda, intensive: bool) -> None:
+    """all six Numba and six NumPy kernels (and, on the 1e5-sample records with a handful of segments, the six CUDA host functions under the
+    simulator) on LONG records (N = 1e5 .. 1.1e6) riding on a level / ramp / step 1e6 .. 1e10 times the fluctuation, few segments (K <= 64) at the start,
+    the middle and the END of the record, L in {16, 64, 257}, fractional and low bins: every statistic against the per-segment extended-precision
+    evaluation within the module's budget AND (orders >= 0) within the budget of the per-segment evaluation (seg_tight_tol) -- a kernel whose trend
+    comes from a whole-record quantity (one running sum: seeded defect C01h), or that lets a sample outside the segment in, fails the latter."""
+    from speckit.core import _build_Q
+    n = ctx.scale(8, 36) * (2 if intensive else 1)
+    n_cuda = 0
+    for i in range(n):
+        if ctx.time_left() < 15 or len(P.violations) >= 5:
+            break
+        N = LONG_N[i % 4] + (int(rng.integers(0, 977)) if i >= 4 else 0)
+        L = LONG_L[i % 3]
+        spec = long_spec(rng, i, N, L)
+        x1, x2 = long_record(spec)
+        starts = np.asarray(spec["starts"], dtype=np.int64)
+        with_cuda = cuda is not None and N < 200_000 and (i < 4 or intensive or ctx.thorough)
+        for j, name in enumerate(NUMBA):
+            w, omega, ocl = long_window_omega(rng, L, i + j)
+            c = {"L": L, "N": N, "starts": starts, "w": w, "omega": omega, "x1": x1, "x2": x2, "omega_class": ocl, "start_mode": 20 + (0 if i % 4 else 1),
+                 "kind": "long:" + spec["shapes"][0] + ("+spike" if spec["spikes"] else ""), "long": {k: v for k, v in spec.items() if k != "starts"}}
+            Q = _build_Q(L, 1 + (i + j // 2) % 2) if "poly" in name else None
+            try:
+                R = reference(name, c, Q)
+                check_case(P, name, "numba", c, Q, impl_call(name, c, Q), R)
+                check_case(P, name, "numpy", c, Q, impl_call(name + "_np", c, Q), R)
+                if with_cuda:                                               # the simulator walks K*L samples in Python: a few segments only
+                    sel = np.unique(np.concatenate([starts[:2], [starts.max(), starts.min()]]))[::-1].copy()
+                    cc = dict(c, starts=sel.astype(np.int64))
+                    check_case(P, name, "cuda-sim", cc, Q, cuda.call(name, cc, Q))
+                    n_cuda += 1
+            except InputModified as ex:
+                P.violations.append(C.Violation(
+                    what=f"{name} (or its NumPy fallback) modified its input array(s) {ex} in place on a long record (N={N} L={L} K={len(starts)})",
+                    signature={"fn": name, "input_modified": True}, replay={"case": case_dump(name, c, Q, "numpy"), "modified": str(ex)}))
+            except Exception as ex:
+                P.violations.append(C.Violation(what=f"{name} raised {ex!r} on an in-range long record (N={N} L={L} K={len(starts)})",
+                                                signature={"fn": name, "raises": True}, replay={"case": case_dump(name, c, Q, "?"), "error": repr(ex)}))
+                continue
+            P.hit(f"long:N~1e{int(np.log10(N))}")
+            P.hit(f"long:L={L}")
+            P.hit("long:" + spec["shapes"][0])
+            if spec["spikes"]:
+                P.hit("long:spike-outside-segments")
+        if i < 2:
+            P.sample({"op": "oracle-long", "N": N, "L": L, "K": len(starts), "levels": spec["levels"], "fluct": spec["fluct"], "shapes": spec["shapes"],
+                      "spikes": spec["spikes"], "starts": spec["starts"][:8]})
+    if n_cuda:
+        P.notes.append(f"long-record stream: {n_cuda} cases also through the CUDA host functions (simulator, 1e5-sample records, <= 4 segments)")
+
+
 AN_KINDS = ["carrier+noise", "periodic-exact", "carrier+noise", "dc+noise", "locked-sine", "const"]
 
 
@@ -747,6 +996,28 @@ def analyzer_locked_case(rng: np.random.Generator, i: int) -> Dict[str, Any]:
     if psll is not None:
         opts["psll"] = psll
     return {"x": x1, "y": x2 if cross else None, "fs": fs, "opts": opts, "freq": float(min(max(nu, 0.0), 0.5) * fs), "L": L, "kind": kind, "K": K}
+
+
+def analyzer_dump(a: Dict[str, Any]) -> Dict[str, Any]:
+    """the complete input of one public-entry case for a replay file; a long record is stored as its spec (long_record regenerates it)"""
+    d = {"fs": float(a["fs"]), "opts": dict(a["opts"]), "freq": float(a["freq"]), "L": int(a["L"]), "kind": a["kind"], "req": a.get("req", "L"),
+         "dfrac": a.get("dfrac", 0.3), "entry": a.get("entry", "method")}
+    if "long" in a:
+        d["long"], d["cross"] = a["long"], a["y"] is not None
+    else:
+        d["x"], d["y"] = np.asarray(a["x"]).tolist(), None if a["y"] is None else np.asarray(a["y"]).tolist()
+    return d
+
+
+def analyzer_load(d: Dict[str, Any]) -> Dict[str, Any]:
+    a = {k: d[k] for k in ("fs", "opts", "freq", "L") if k in d}
+    a.update(kind=d.get("kind", "?"), req=d.get("req", "L"), dfrac=d.get("dfrac", 0.3), entry=d.get("entry", "method"))
+    if "long" in d:
+        x1, x2 = long_record(d["long"])
+        a.update(x=x1, y=x2 if d.get("cross") else None, long=d["long"])
+    else:
+        a.update(x=np.array(d["x"], dtype=np.float64), y=None if d["y"] is None else np.array(d["y"], dtype=np.float64))
+    return a
 
 
 def check_analyzer(P: C.Part, a: Dict[str, Any]) -> None:
@@ -797,8 +1068,7 @@ def check_analyzer(P: C.Part, a: Dict[str, Any]) -> None:
              f"{', module-level wrapper' if a.get('entry') == 'module' else ''}) "
              f"{'cross' if cross else 'auto'} {a['kind']} record (fs={fs!r}, K={K})")
     sig = {"entry": "compute_single_bin", "backend": be, "mode": "cross" if cross else "auto", "order": order}
-    rp = {"analyzer": {"x": np.asarray(x).tolist(), "y": None if y is None else np.asarray(y).tolist(), "fs": fs, "opts": opts, "freq": float(a["freq"]),
-                       "L": int(a["L"]), "kind": a["kind"], "req": a.get("req", "L"), "dfrac": a.get("dfrac", 0.3), "entry": a.get("entry", "method")}}
+    rp = {"analyzer": analyzer_dump(a)}
     P.cases += 1
     P.hit(f"analyzer:req={a.get('req', 'L')}:{a.get('entry', 'method')}")
     P.hit(f"analyzer:{be}")
@@ -813,7 +1083,20 @@ def check_analyzer(P: C.Part, a: Dict[str, Any]) -> None:
             what=f"{label}: {('XX_mean', 'YY_mean', 'Re XY', 'Im XY', 'XY_M2')[k]} = {obs[k]!r} but the definition evaluated on the bin's own segments gives "
                  f"{ext[k]!r} (tol {tol[k]:.3g})", signature=dict(sig, component=k), replay=dict(rp, observed=obs, expected=ext)))
         return
+    nv = len(P.violations)
     tight_m2(P, label + " XY_M2", ("analyzer", be, "cross" if cross else "auto", order), K, obs[4], ext, sx, zmax, tol, sig, rp)
+    # orders >= 0: the budget of the per-segment evaluation (seg_tight_tol). Orders 1, 2: against the direct evaluation with the basis the library
+    # itself builds (core._build_Q, as the analyzer does) -- that this basis spans the least-squares polynomial trend is checked above and in the
+    # trend stream with the projector allowance, which on a large level would swamp the segment budget.
+    if order >= 0 and len(P.violations) == nv:
+        if order >= 1:
+            from speckit.core import _build_Q
+            Ql = np.ascontiguousarray(_build_Q(L, order), dtype=np.float64)
+            ext, sx, zmax = direct_ext(x, x2, starts, L, w, om, order, Ql, cross)
+        else:
+            Ql = None
+        tt = seg_tight_tol(x, x2, starts, L, w, om, order, Ql, cross)
+        tight_means(P, label, ("analyzer", be, "cross" if cross else "auto", order, a["kind"]), K, obs, ext, sx, zmax, tt, tol, sig, rp)
 
 
 def analyzer_stream(ctx, P: C.Part, rng: np.random.Generator, intensive: bool) -> None:
@@ -831,11 +1114,60 @@ def analyzer_stream(ctx, P: C.Part, rng: np.random.Generator, intensive: bool) -
             P.violations.append(C.Violation(
                 what=f"compute_single_bin raised {ex!r} on an in-range {a['kind']} record (opts {a['opts']}, L={a['L']}, N={len(a['x'])})",
                 signature={"entry": "compute_single_bin", "raises": True},
-                replay={"analyzer": {"x": a["x"].tolist(), "y": None if a["y"] is None else a["y"].tolist(), "fs": a["fs"], "opts": a["opts"],
-                                     "freq": a["freq"], "L": a["L"], "kind": a["kind"], "req": a.get("req", "L"), "dfrac": a.get("dfrac", 0.3),
-                                     "entry": a.get("entry", "method")}, "error": repr(ex)}))
+                replay={"analyzer": analyzer_dump(a), "error": repr(ex)}))
         if i == 0:
             P.sample({"op": "oracle-analyzer", "kind": a["kind"], "N": len(a["x"]), "fs": a["fs"], "opts": a["opts"], "freq": a["freq"], "L": a["L"]})
+
+
+AN_LONG_SHAPES = ["level", "level+ramp", "level", "ramp", "level", "step", "level", "level+ramp"]                      # channel 1 of the pair
+AN_LONG_MODES = [(0, False), (0, True), (1, False), (-1, True), (0, True), (2, False), (0, False), (1, True)]      # (order, cross) of a numpy / numba pair
+
+
+def analyzer_long_case(rng: np.random.Generator, i: int) -> Dict[str, Any]:
+    """case i of the public-entry stream on long records: SpectrumAnalyzer(data, fs, order, win, olap, backend).compute_single_bin at a fractional / low
+    bin of a record of 1e5 .. 1.5e5 samples (case 0: 1.1e6 samples, L = 257, no overlap) on a level / ramp / step 1e6 .. 1e10 times the fluctuation; the
+    analyzer's own plan covers the whole record (K = 400 .. 6250 segments, up to the END). backend = numpy, numba by i % 2; (order, cross) of the pair from
+    AN_LONG_MODES (order 0 in half of the pairs, orders -1, 1, 2 in the others; cross flipped every 16 cases); L in {64, 16, 257}; request by L or by
+    resolution, method or module-level wrapper. (The huge-sample variant is a kernel-level case only: the analyzer's segments cover every sample.)"""
+    backend = ["numpy", "numba"][i % 2]
+    order, cross = AN_LONG_MODES[(i // 2) % len(AN_LONG_MODES)]
+    cross = cross != ((i // 16) % 2 == 1)
+    L = LONG_L[(i // 2 + i // 16) % 3]
+    olap = float([0.5, 0.0, 0.5, 0.75][(i + i // 3) % 4]) if L == 257 else (float([0.0, 0.5][(i // 3) % 2]) if L == 64 else 0.0)
+    N = ([100_000, 150_001, 120_000][(i + i // 2) % 3] if L > 16 else 100_000) if i else 1_100_000
+    if i == 0:
+        L, olap = 257, 0.0
+    fl = float(rng.choice([1.0, 1.0, 1e-3, 1e3]))
+    spec = {"seed": int(rng.integers(0, 2 ** 31 - 1)), "N": int(N), "fluct": fl,
+            "levels": [fl * float(10 ** rng.uniform(6, 10)) * float(rng.choice([-1.0, 1.0])) for _ in range(2)],
+            "shapes": [AN_LONG_SHAPES[(i // 2) % len(AN_LONG_SHAPES)], LONG_SHAPES[(i + 2) % len(LONG_SHAPES)]], "spikes": []}
+    x1, x2 = long_record(spec)
+    fs = float(rng.choice([1.0, 2.0, 64.0, 1000.0, float(rng.uniform(0.1, 1e4))]))
+    b = LONG_BINS[(i + i // 6) % len(LONG_BINS)]
+    win, psll = [("hann", None), ("kaiser", 60.0), ("hann", None), ("kaiser", 150.0)][int(rng.integers(0, 4))]
+    opts: Dict[str, Any] = {"order": order, "win": win, "olap": olap, "backend": backend}
+    if psll is not None:
+        opts["psll"] = psll
+    return {"x": x1, "y": x2 if cross else None, "fs": fs, "opts": opts, "freq": b * fs / L, "L": L, "kind": "long:" + spec["shapes"][0], "long": spec,
+            "req": ("L", "fres_int", "L", "fres_frac")[(i // 2) % 4], "dfrac": (0.3, -0.37, 0.45)[i % 3], "entry": "module" if i % 5 == 4 else "method"}
+
+
+def analyzer_long_stream(ctx, P: C.Part, rng: np.random.Generator, intensive: bool) -> None:
+    n = ctx.scale(16, 96) * (2 if intensive else 1)
+    for i in range(n):
+        if ctx.time_left() < 12 or len(P.violations) >= 5:
+            break
+        a = analyzer_long_case(rng, i)
+        try:
+            check_analyzer(P, a)
+        except Exception as ex:
+            P.violations.append(C.Violation(
+                what=f"compute_single_bin raised {ex!r} on an in-range {a['kind']} record (opts {a['opts']}, L={a['L']}, N={len(a['x'])})",
+                signature={"entry": "compute_single_bin", "raises": True}, replay={"analyzer": analyzer_dump(a), "error": repr(ex)}))
+        P.hit("analyzer:long")
+        if i == 0:
+            P.sample({"op": "oracle-analyzer-long", "N": len(a["x"]), "fs": a["fs"], "opts": a["opts"], "freq": a["freq"], "L": a["L"],
+                      "levels": a["long"]["levels"], "fluct": a["long"]["fluct"], "shapes": a["long"]["shapes"]})
 
 
 def oracle(ctx, intensive: bool = False, hints: List[Dict[str, Any]] = ()) -> C.Part:
@@ -937,6 +1269,14 @@ def oracle(ctx, intensive: bool = False, hints: List[Dict[str, Any]] = ()) -> C.
     lrng = np.random.default_rng(int(ctx.rng.integers(0, 2 ** 31 - 1)))
     locked_stream(ctx, P, lrng, cuda, intensive)
     analyzer_stream(ctx, P, lrng, intensive)
+    # long records on a large level / ramp, few segments up to the END of the record (kernels), the analyzer's own plan (public entry): the rounding
+    # budget is that of the per-segment evaluation. Own child generator, seeded after everything above.
+    grng = np.random.default_rng(int(ctx.rng.integers(0, 2 ** 31 - 1)))
+    long_stream(ctx, P, grng, cuda, intensive)
+    analyzer_long_stream(ctx, P, grng, intensive)
+    P.notes.append(f"segment-budget predicate (orders >= 0): {P.histogram.get('segtight:detectable', 0)} evaluations where the budget of the per-segment "
+                   f"evaluation is below 1e-3 of the raw-magnitude budget ({len([k for k in P.nontrivial if k and k[0] == 'segtight'])} distinct "
+                   f"(function/entry, backend, kind, order))")
     P.notes.append(f"near-identical-segment region: {P.histogram.get('tight:detectable', 0)} evaluations where an error of u*|mean|^2/4 in M2 would be seen "
                    f"({len([k for k in P.nontrivial if k and k[0] == 'tight'])} distinct (function/entry, backend, kind, K))")
     if cuda:
@@ -948,16 +1288,19 @@ def replay(ctx, data) -> C.Part:
     P = C.Part()
     for v in data.get("violations", []):
         if "analyzer" in v["replay"]:          # public single-bin entry on a near-identical-segment record
-            a = v["replay"]["analyzer"]
-            check_analyzer(P, {"x": np.array(a["x"], dtype=np.float64), "y": None if a["y"] is None else np.array(a["y"], dtype=np.float64),
-                               "fs": a["fs"], "opts": a["opts"], "freq": a["freq"], "L": a["L"], "kind": a.get("kind", "?"),
-                               "req": a.get("req", "L"), "dfrac": a.get("dfrac", 0.3), "entry": a.get("entry", "method")})
+            check_analyzer(P, analyzer_load(v["replay"]["analyzer"]))
             continue
         if "case" not in v["replay"]:
             continue
         cd = v["replay"]["case"]
-        c = {"L": cd["L"], "N": len(cd["x1"]), "starts": np.array(cd["starts"], dtype=np.int64), "w": np.array(cd["w"]), "omega": cd["omega"],
-             "x1": np.array(cd["x1"]), "x2": np.array(cd["x2"]), "omega_class": -1, "start_mode": -1, "kind": v["replay"].get("kind", "generic")}
+        if "long" in cd:                       # long record: regenerated from its spec
+            rx1, rx2 = long_record(cd["long"])
+        else:
+            rx1, rx2 = np.array(cd["x1"], dtype=np.float64), np.array(cd["x2"], dtype=np.float64)
+        c = {"L": cd["L"], "N": len(rx1), "starts": np.array(cd["starts"], dtype=np.int64), "w": np.array(cd["w"], dtype=np.float64), "omega": cd["omega"],
+             "x1": rx1, "x2": rx2, "omega_class": -1, "start_mode": -1, "kind": v["replay"].get("kind", "generic")}
+        if "long" in cd:
+            c["long"] = cd["long"]
         Q = None if cd["Q"] is None else np.array(cd["Q"])
         name = cd["fn"]
         be = cd["backend"]
